@@ -239,6 +239,11 @@ func c01URL(r *rng, sc *c01Scenario) string {
 	host := pick(r, poolDomains)
 	switch r.n(8) {
 	case 0: // shortcut is the very end of the URL
+		if r.chance(1, 3) {
+			// an upper-case letter whose lower-case form has another UTF-8 length: len(URL) != len(URLLowerCase)
+			return pick(r, poolSchemes) + "://" + host + "/q" + pick(r, []string{"\u023a", "\u023e\u023a", "\u0130", "\u212a", "\u0130\u0130\u0130"}) + "?" + lit()
+		}
+
 		return pick(r, poolSchemes) + "://" + host + "/q?" + lit()
 	case 1: // repeated windows
 		l := lit()
